@@ -77,8 +77,16 @@ class Payloads:
         r = self.rng
         i = self.n
         self.n += 1
-        kind = r.randrange(10)
-        if kind <= 2:
+        kind = r.randrange(12)
+        if kind >= 10:
+            # what rollout is for: the payloads of a flattened dict SCHEMA are schemas - among them dict schemas, which
+            # have keys() / __getitem__ / __iter__ without being dicts - and read-only mappings
+            from d42 import schema as _schema
+            import types as _types
+            src = r.choice(["schema.dict({'x': schema.int})", "schema.dict", "schema.dict({...: ...})", "schema.int", "schema.list([schema.str])",
+                            "schema.dict({'x': schema.dict({'y': schema.none})})", "MappingProxyType({'a': 1})", "MappingProxyType({})"])
+            v = eval(src, {"schema": _schema, "MappingProxyType": _types.MappingProxyType})
+        elif kind <= 2:
             v, src = S(i), f"S({i})"
         elif kind == 3:
             v, src = 1000 + i, str(1000 + i)
@@ -526,7 +534,9 @@ def all_keys(node):
 def replay(data):
     from d42 import optional
     from d42.utils import rollout
-    ns = {"optional": optional, "S": S, "rollout": rollout}
+    import types
+    from d42 import schema
+    ns = {"optional": optional, "S": S, "rollout": rollout, "schema": schema, "MappingProxyType": types.MappingProxyType}
     print("call    :", data.get("call"))
     try:
         d = eval(data["input"], ns)
